@@ -58,6 +58,11 @@ def main() -> None:
     run = Run("C18", "exploration")
     run.forbid()
     q = run.tier == "quick"
+    # the number-literal part of the property is a theorem over Text/Num.v, tied to the real readers and printers by K-num
+    run.require_vo(["Text/Num.v", "Text/NumProofs.v"])
+    run.props("Props/C18.v")
+    from knum import check_knum
+    check_knum(run, random.Random(f"C18-num-{run.seed}"), 1200 if q else 15000)
     texts = []
     for i in range(200 if q else 3000):
         r = random.Random(f"C18-{run.seed}-{i}")
@@ -65,10 +70,11 @@ def main() -> None:
         # more position marks
         g.posmark_boost = True
         p = g.macro_program(1)["flat"]
-        t = print_prog(p)
+        t = print_prog(p, mix=r if i % 2 else None)     # every other program: macros and routines interleaved
         if "Position<" in t:
             texts.append(t)
     texts += ["def 0 {\n    a(Position<'m', 1, 2>, Position<\"n\", 3.5, 4>); b(Position<'o', 5, 6.5>);\n}\n",
+              "def 0 {\n    a(Position<'first', 1, 1>);\n}\nmacro late() {\n    b(Position<'second', 2, 2>);\n}\ndef 1 {\n    ~late();\n    c(Position<'third', 3, 3>);\n}\n",
               "macro m($a) {\n    x($a, Position<'in macro', 7, 8>);\n}\ndef 0 {\n    ~m(Position<'arg', 1.5, 2.5>);\n"
               "    switch (ProcessSpecial(Position<'hdr', 9, 9>)) {\n        case 1:\n            y();\n    }\n}\n"]
     preps = run_impl([("checks.c18:prepare", t, f"C18-{run.seed}-{i}", j) for i, t in enumerate(texts) for j in range(3 if q else 6)])
